@@ -110,7 +110,7 @@ def check_candidates(rng, counters, classes, n=40):
     vio = []
     for _ in range(n):
         level = rng.choice([1, 2, 3, 4])
-        kind = rng.choice(['iso-file', 'iso-file', 'iso-dir', 'joliet', 'udf', 'rr', 'depth', 'link', 'symlink', 'versions', 'reloc-same', 'reloc-rr-dup', 'special-dir-dup'])
+        kind = rng.choice(['iso-file', 'iso-file', 'iso-dir', 'joliet', 'udf', 'rr', 'depth', 'link', 'symlink', 'versions', 'reloc-same', 'reloc-rr-dup', 'special-dir-dup', 'reloc-name'])
         if rng.random() < 0.02:
             kind = 'bigdup'
         xa = rng.random() < 0.35
@@ -228,6 +228,18 @@ def check_candidates(rng, counters, classes, n=40):
             exp = legal_iso_file(ident, level, xa)
             op = {'op': 'add_hard_link', 'old': ('iso', '/OLD.;1' if level < 4 else '/old'), 'new': ('iso', '/' + ident),
                   '_pre': [{'op': 'add_fp', 'cid': 1, 'length': 3, 'iso_path': '/OLD.;1' if level < 4 else '/old'}]}
+        elif kind == 'reloc-name':
+            # the ISO9660 name chosen for the Rock Ridge relocation directory is a directory identifier
+            level = rng.choice([1, 2, 3])
+            cfg = Cfg(level=level, rr=rng.choice(['1.09', '1.12']), xa=xa)
+            if rng.random() < 0.5:
+                ident = cand_iso_file(rng, level)
+            else:
+                ident = ''.join(rng.choice(D1) for _ in range(rng.choice([1, 5, 8, 9, 20, 31, 32])))
+                if rng.random() < 0.3:
+                    ident = ident[:-1] + rng.choice('a.; é')
+            exp = legal_iso_dir(ident, level, xa)
+            op = {'op': 'set_relocated_name', 'name': ident, 'rr_name': 'moved'}
         elif kind == 'iso-dir':
             n_ = rng.choice([1, 7, 8, 9, 30, 31, 206, 207, 208, 220, 221, 222, 230, 250])
             ident = ''.join(rng.choice(D1) for _ in range(n_))
@@ -339,6 +351,10 @@ def readd_history(cs, counters):
     cfg = g.cfg(index=cs)
     h = common.History(cfg, cs, 'std', max_size=2000)
     h.extend(rng.choice([5, 12, 20]))
+    if cs % 5 in (1, 3):
+        # the names are re-added on an object that opened the mastered image (parsed records)
+        if h.reopen(reuse=(cs % 5 == 3)):
+            counters['readd_on_reopened'] = counters.get('readd_on_reopened', 0) + 1
     s = h.sess
     m = s.model
     tried = []
